@@ -170,6 +170,7 @@ func TestSim(t *testing.T) {
 			}
 			cfg := it.Cfg
 			cfg.KeepLines = os.Getenv("SIM_LINES") != ""
+			cfg.TraceLog = os.Getenv("SIM_TRACE") != ""
 			if journal != nil {
 				journal.Truncate(0)
 				journal.Seek(0, 0)
